@@ -164,6 +164,24 @@ def scenarios(tier):
                     if base == 1e-3:
                         # the same with a blocking driver: the second call lands while the sender is inside send_message
                         items.append((dict(sc, send_cost=0.0003), 0))
+    # a slow blocking driver (5 ms per frame): one window of 255 packets keeps the job thread inside one pass for longer than
+    # the longest protocol timeout
+    for size in (1785, 1779):
+        sc = {'dll': DLL, 'stacks': stacks3(255, 255, 1), 'base_lat': 1e-3, 'send_cost': 0.005,
+              'msgs': [msg(0x10, 'p2p', 0x20, size)], 'horizon': 8.0}
+        items.append((sc, 0))
+    # (c2) two outgoing sessions of one stack (a long one in small windows, a short one that finishes meanwhile) and, with a
+    #      blocking driver, a third message for the short one's pair right after the n-th bus frame, for every n: it lands while
+    #      the job thread is held inside a send of the long session
+    for base in (0.2e-3, 1e-3):
+        for (cost, eps) in ((0.0003, 50e-6), (0.0003, 0.002), (0.0008, 0.001)):
+            for n in range(2, 34):
+                for frac in (0.03, 0.5, 0.9):
+                    ms = [msg(0x10, 'p2p', 0x20, 100), msg(0x11, 'p2p', 0x30, 9),
+                          dict(msg(0x11, 'p2p', 0x30, 16), after=n, after_dt=cost * frac, may_refuse=True)]
+                    sc = {'dll': DLL, 'stacks': stacks3(2, 2, 255), 'base_lat': base, 'send_cost': cost, 'eps_wake': eps,
+                          'late_ok': True, 'msgs': ms}
+                    items.append((sc, 0))
     # (d) the application reacts from inside a callback: next message on the same pair from the callback that reports the
     #     end-of-message acknowledgement, a reply in the other direction from the delivery callback
     for wins in [(1, 1, 1), (2, 3, 255), (255, 255, 255)]:
